@@ -194,9 +194,20 @@ func (c *Cluster) converged(members map[uint64]bool) convState {
 	return st
 }
 
-// twoVoterException: README "use three or more nodes": a survivor whose own configuration
-// still has a two-voter half containing a node that was removed and stopped.
+// twoVoterException: README "use three or more nodes": a survivor whose own configuration still
+// has a two-voter half containing a node that the committed configuration has removed or demoted
+// to learner. The survivor needs that node's vote for its stale quorum; a removed node is stopped
+// and a demoted one neither campaigns nor votes for a shorter log.
 func (c *Cluster) twoVoterException(members map[uint64]bool) bool {
+	voters := map[uint64]bool{}
+	if cs := c.committedConf(); cs != nil {
+		for _, id := range cs.GetVoters() {
+			voters[id] = true
+		}
+		for _, id := range cs.GetVotersOutgoing() {
+			voters[id] = true
+		}
+	}
 	for _, id := range c.ids {
 		n := c.nodes[id]
 		if !members[id] || !n.alive || n.rn == nil {
@@ -206,7 +217,7 @@ func (c *Cluster) twoVoterException(members map[uint64]bool) bool {
 		for _, half := range d.Config.Voters {
 			if len(half) == 2 {
 				for v := range half {
-					if !members[v] {
+					if !members[v] || !voters[v] {
 						return true
 					}
 				}
